@@ -10,7 +10,7 @@ LEVEL = "other"
 def run(rep, tier, seed):
     from checks import syntactic
     syntactic.run(rep, "C09")
-    proved_tier(rep, "C09", seed, expected_min_obligations=40)
+    proved_tier(rep, "C09", seed, expected_min_obligations=15)
     bounded_C09.run(rep, tier, seed)
 
 
